@@ -120,21 +120,85 @@ theorem rmChk_LocalWF (l l' : Local) (k : Id) (h : rmChk l k = (.ok, l')) (hw : 
     · exact hw k' dk h1 h2
   · cases h
 
-/-- a status update keeps well-formedness (the binding of the check does not change) -/
-theorem updChk_LocalWF (l : Local) (k : Id) (st : Nat) (hw : LocalWF l) : LocalWF (updChk l k st) := by
+/-- rewriting the record of a registered check without touching its service binding keeps
+    well-formedness -/
+theorem LocalWF_rebind (l l' : Local) (k : Id) (d d' : ChkDef) (tok : String) (loc b b' : Bool)
+    (he : l.chks.get? k = some (.ent d tok loc b false)) (hsid : d'.sid = d.sid)
+    (h1 : l'.svcs = l.svcs) (h2 : l'.chks = l.chks.set k (.ent d' tok loc b' false)) (hw : LocalWF l) : LocalWF l' := by
+  intro k' dk hk hs
+  have hls : liveSvc l' dk.sid = liveSvc l dk.sid := by simp [liveSvc, h1]
+  rw [hls]
+  simp only [liveChk, h2, get?_set] at hk
+  split at hk
+  · simp only [Option.bind_some, Ent.live?, Option.some.injEq] at hk; subst hk
+    rw [hsid] at hs ⊢
+    exact hw k d (by simp [liveChk, he, Ent.live?]) hs
+  · exact hw k' dk hk hs
+
+theorem arm_frame (l : Local) (k : Id) : (l.arm k).svcs = l.svcs ∧ (l.arm k).chks = l.chks ∧ (l.arm k).nodeInSync = l.nodeInSync := by
+  unfold Local.arm; split <;> exact ⟨rfl, rfl, rfl⟩
+
+/-- a status / output update keeps well-formedness (the binding of the check does not change) -/
+theorem updChk_LocalWF (cui : Bool) (l : Local) (k : Id) (st : Nat) (hw : LocalWF l) : LocalWF (updChk cui l k st) := by
   unfold updChk
   split
   · rename_i d tok loc b he
     split
     · exact hw
-    · intro k' dk h1 h2
-      rw [liveChk_set] at h1
-      show liveSvc l dk.sid ≠ none
-      split at h1
-      · simp only [Ent.live?, Option.some.injEq] at h1; subst h1
-        exact hw k d (by simp [liveChk, he, Ent.live?]) h2
-      · exact hw k' dk h1 h2
+    · split
+      · obtain ⟨a1, a2, _⟩ := arm_frame { l with chks := l.chks.set k (.ent { d with status := st } tok loc b false) } k
+        exact LocalWF_rebind l _ k d { d with status := st } tok loc b b he rfl a1 a2 hw
+      · exact LocalWF_rebind l _ k d { d with status := st } tok loc b false he rfl rfl rfl hw
   · exact hw
+
+/-! ### defer timers -/
+
+theorem armed_disarm (l : Local) (k k' : Id) : (l.disarm k).armed k' = (l.armed k' && k' != k) := by
+  simp only [Local.armed, Local.disarm, List.contains_eq_mem, List.mem_filter]
+  by_cases h1 : k' ∈ l.dfr <;> by_cases h2 : k' = k <;> simp [h1, h2]
+
+theorem armed_arm (l : Local) (k k' : Id) : (l.arm k).armed k' = (l.armed k' || k' == k) := by
+  unfold Local.arm
+  split
+  · rename_i h
+    by_cases h2 : k' = k
+    · subst h2; simp only [Local.armed, h, Bool.true_or]
+    · simp [h2]
+  · by_cases h2 : k' = k <;> simp [Local.armed, h2]
+
+/-- firing a timer only clears that timer and (for a registered check) its in-sync mark -/
+theorem fire_frame (l : Local) (k : Id) :
+    (fire l k).svcs = l.svcs ∧ (∀ i, liveSvc (fire l k) i = liveSvc l i) ∧ (∀ k', liveChk (fire l k) k' = liveChk l k') ∧
+    (∀ k', (fire l k).chks.get? k' ≠ none ↔ l.chks.get? k' ≠ none) ∧
+    (∀ k' d tok loc b, (fire l k).chks.get? k' = some (.ent d tok loc b true) → l.chks.get? k' = some (.ent d tok loc b true)) := by
+  unfold fire
+  split
+  · split
+    · rename_i d tok loc b he
+      refine ⟨rfl, fun _ => rfl, ?_, ?_, ?_⟩
+      · intro k'; simp only [liveChk, get?_set]; split
+        · rename_i e; subst e; simp [he, Ent.live?]
+        · rfl
+      · intro k'; simp only [get?_set]; split
+        · rename_i e; subst e; simp [he]
+        · exact Iff.rfl
+      · intro k' d' tok' loc' b' h
+        simp only [get?_set] at h; split at h
+        · cases h
+        · exact h
+    · exact ⟨rfl, fun _ => rfl, fun _ => rfl, fun _ => Iff.rfl, fun _ _ _ _ _ h => h⟩
+  · exact ⟨rfl, fun _ => rfl, fun _ => rfl, fun _ => Iff.rfl, fun _ _ _ _ _ h => h⟩
+
+theorem fire_armed (l : Local) (k k' : Id) : (fire l k).armed k' = (l.armed k' && k' != k) := by
+  unfold fire
+  split
+  · split
+    · exact armed_disarm l k k'
+    · exact armed_disarm l k k'
+  · rename_i h
+    by_cases h2 : k' = k
+    · subst h2; simp at h; simp [h]
+    · simp [h2]
 
 /-! ### ids in play -/
 
@@ -232,5 +296,152 @@ theorem rmSvc_LocalWF (l l' : Local) (id : Id) (ks : List Id) (h : rmSvc l id ks
       · rw [e] at h1; cases h1
     | err => simp at h
     | panic => simp at h
+
+end CV.AE
+
+namespace CV.AE
+open AMap
+
+/-! ### syncing never arms a timer; pushing a check clears its timer -/
+
+theorem armed_filter_sub (l : Local) (p : Id → Bool) (k : Id)
+    (h : ({ l with dfr := l.dfr.filter p } : Local).armed k = true) : l.armed k = true := by
+  simp only [Local.armed, List.contains_eq_mem, List.mem_filter, decide_eq_true_eq] at h ⊢
+  exact h.1
+
+theorem svcStep_armed (cfg : Cfg) (f : Faults) (s : St) (id k : Id)
+    (h : (svcStep cfg f s id).l.armed k = true) : s.l.armed k = true := by
+  have hdel : (deleteService f id s).l.armed k = true → s.l.armed k = true := by
+    unfold deleteService
+    split
+    · exact fun h => h
+    · cases f.svc id with
+      | denied => exact fun h => h
+      | fail => exact fun h => h
+      | lost => exact fun h => h
+      | ok =>
+        intro h
+        simp only [Local.armed, List.contains_eq_mem, List.mem_filter, decide_eq_true_eq] at h ⊢
+        exact h.1
+  unfold svcStep at h
+  split at h
+  · exact h
+  · exact hdel h
+  · exact hdel h
+  · unfold syncService at h
+    simp only at h
+    cases ho : f.svc id <;> rw [ho] at h <;> simp only at h
+    · split at h <;> exact h
+    · exact h
+    · exact h
+    · split at h <;> exact h
+  · exact h
+
+theorem chkStep_armed (cfg : Cfg) (f : Faults) (s : St) (k k' : Id)
+    (h : (chkStep cfg f s k).l.armed k' = true) : s.l.armed k' = true := by
+  have hdis : (s.l.disarm k).armed k' = true → s.l.armed k' = true := by
+    intro h; rw [armed_disarm] at h; simp at h; exact h.1
+  have hdel : (deleteCheck f k s).l.armed k' = true → s.l.armed k' = true := by
+    unfold deleteCheck
+    split
+    · exact fun h => h
+    · cases f.chk k with
+      | denied => exact fun h => h
+      | fail => exact fun h => h
+      | lost => exact fun h => h
+      | ok => exact hdis
+  unfold chkStep at h
+  split at h
+  · exact h
+  · exact hdel h
+  · exact hdel h
+  · unfold syncCheck at h
+    simp only at h
+    cases ho : f.chk k <;> rw [ho] at h <;> simp only at h
+    · split at h <;> exact hdis h
+    · exact hdis h
+    · exact hdis h
+    · split at h <;> exact hdis h
+  · exact h
+
+/-- the push of an out-of-sync registered check stops AND clears its timer, whatever the RPC does -/
+theorem chkStep_push_disarms (cfg : Cfg) (f : Faults) (s : St) (k : Id) (d : ChkDef) (tok : String) (loc : Bool)
+    (he : s.l.chks.get? k = some (.ent d tok loc false false)) : (chkStep cfg f s k).l.armed k = false := by
+  have hdis : (s.l.disarm k).armed k = false := by rw [armed_disarm]; simp
+  unfold chkStep
+  rw [he]
+  simp only
+  unfold syncCheck
+  simp only
+  cases f.chk k <;> simp only
+  · split <;> exact hdis
+  · exact hdis
+  · exact hdis
+  · split <;> exact hdis
+
+theorem svcFold_armed (cfg : Cfg) (f : Faults) (k : Id) (ks : List Id) :
+    ∀ s : St, (ks.foldl (svcStep cfg f) s).l.armed k = true → s.l.armed k = true := by
+  induction ks with
+  | nil => intro s h; exact h
+  | cons i ks ih => intro s h; simp only [List.foldl_cons] at h; exact svcStep_armed cfg f s i k (ih _ h)
+
+theorem chkFold_armed (cfg : Cfg) (f : Faults) (k : Id) (ks : List Id) :
+    ∀ s : St, (ks.foldl (chkStep cfg f) s).l.armed k = true → s.l.armed k = true := by
+  induction ks with
+  | nil => intro s h; exact h
+  | cons i ks ih => intro s h; simp only [List.foldl_cons] at h; exact chkStep_armed cfg f s i k (ih _ h)
+
+theorem syncChanges_armed (cfg : Cfg) (ord : Order) (f : Faults) (l : Local) (c : Cat) (k : Id)
+    (h : (syncChanges cfg ord f l c).l.armed k = true) : l.armed k = true := by
+  have rest : ∀ s : St, (syncRest cfg ord f s).l.armed k = true → s.l.armed k = true := by
+    intro s h; unfold syncRest chkLoop svcLoop at h
+    exact svcFold_armed cfg f k _ s (chkFold_armed cfg f k _ _ h)
+  have hnode : (syncNode cfg f ⟨l, c, true⟩).1.l.armed k = l.armed k := by
+    unfold syncNode; cases f.node <;> rfl
+  unfold syncChanges at h
+  split at h
+  · exact rest _ h
+  · split at h
+    · rw [← hnode]; exact rest _ h
+    · rw [← hnode]; exact h
+
+theorem syncFull_armed (cfg : Cfg) (ord : Order) (f : Faults) (l : Local) (c : Cat) (k : Id)
+    (h : (syncFull cfg ord f l c).l.armed k = true) : l.armed k = true := by
+  unfold syncFull at h
+  split at h
+  · have := syncChanges_armed cfg ord f _ c k h
+    exact this
+  · exact h
+
+/-- all armed timers fire -/
+def fireAll (l : Local) : Local := l.dfr.foldl fire l
+
+theorem fireFold_spec (ks : List Id) : ∀ l : Local,
+    (ks.foldl fire l).svcs = l.svcs ∧ (∀ i, liveSvc (ks.foldl fire l) i = liveSvc l i) ∧
+    (∀ k, liveChk (ks.foldl fire l) k = liveChk l k) ∧
+    (∀ k, (ks.foldl fire l).chks.get? k ≠ none ↔ l.chks.get? k ≠ none) ∧
+    (∀ k d tok loc b, (ks.foldl fire l).chks.get? k = some (.ent d tok loc b true) → l.chks.get? k = some (.ent d tok loc b true)) ∧
+    (∀ k, (ks.foldl fire l).armed k = (l.armed k && !ks.contains k)) := by
+  induction ks with
+  | nil => intro l; exact ⟨rfl, fun _ => rfl, fun _ => rfl, fun _ => Iff.rfl, fun _ _ _ _ _ h => h, fun k => by simp⟩
+  | cons a ks ih =>
+    intro l
+    simp only [List.foldl_cons]
+    obtain ⟨i1, i2, i3, i4, i5, i6⟩ := ih (fire l a)
+    obtain ⟨f1, f2, f3, f4, f5⟩ := fire_frame l a
+    refine ⟨by rw [i1, f1], fun i => by rw [i2, f2], fun k => by rw [i3, f3], fun k => (i4 k).trans (f4 k),
+      fun k d tok loc b h => f5 k d tok loc b (i5 k d tok loc b h), ?_⟩
+    intro k
+    rw [i6, fire_armed]
+    by_cases h1 : k = a
+    · subst h1; simp
+    · have h2 : (k != a) = true := by simp [h1]
+      simp [h1, h2]
+
+theorem fireAll_noArmed (l : Local) (k : Id) : (fireAll l).armed k = false := by
+  unfold fireAll
+  rw [(fireFold_spec l.dfr l).2.2.2.2.2 k]
+  simp only [Local.armed]
+  cases l.dfr.contains k <;> rfl
 
 end CV.AE
